@@ -605,10 +605,15 @@ def oracle_c05(sim, sc, st):
         if s not in FINAL:
             # root cause class: starving behind tasks which were failed by an
             # injected work routine error in the executor (slots never freed)
+            # (the client side backfilling scheduler in turn holds tasks back
+            # while the pilot's usage figure does not drop: the same tasks
+            # which starve in the agent scheduler keep it up)
+            waiting_in = [rps.AGENT_SCHEDULING, rps.AGENT_SCHEDULING_PENDING]
+            if sc.get('sched') == 'backfilling':
+                waiting_in.append(rps.TMGR_SCHEDULING)
             for op in sc['ops']:
                 if op[1] == 'work_exc' and st['exc_hit'] and \
-                        uid not in st['exc_hit'] and \
-                        s in (rps.AGENT_SCHEDULING, rps.AGENT_SCHEDULING_PENDING):
+                        uid not in st['exc_hit'] and s in waiting_in:
                     site = 'starved_after_work_exc:%s' % op[2]
             sim.violation('C05', 'no_final', site, det)
             continue
